@@ -90,7 +90,7 @@ func VH_C16_Generated() {
 // everything else encoding/json escapes, or one two-byte UTF-8 character — with
 // each kind of action survives Marshal + Unmarshal field by field.  The other
 // two fields carry fixed texts that need escaping.
-const vhJSONFree = 1 // @tier quick=1 thorough=2
+const vhJSONFree = 1 // @tier quick=1 thorough=1
 
 // class representatives for the bytes after the free ones
 var vhJSONAlphabet = []byte{'"', '\\', '<', '\n', 'a', 0x7f, '&', 0x00, '/', 'u'}
